@@ -33,15 +33,15 @@ Definition fmt_of (tag : Z) : fmt :=
   match tag with
   | 6 => {| f_kinds := [KStr; KStr; KInt 0; KInt 0; KInt 0; KStr; KStr; KStr; KStr]; f_layout := LDelim; f_concat := false;
             f_nowrite := []; f_ragged := false (* t[i] sometimes works on a lazily read BAM table: left to the tolerance *);
-            f_eager_write_fails := false; f_default_hdr := []; f_sid := [] |}
-  | 0 => {| f_kinds := [KStr; KInt 0; KInt 0]; f_layout := LDelim; f_concat := true; f_nowrite := []; f_ragged := false; f_eager_write_fails := false; f_default_hdr := []; f_sid := sid_fields [0%nat] |}
-  | 1 => {| f_kinds := [KStr; KInt 0; KInt 0; KStr; KInt 0; KStr]; f_layout := LDelim; f_concat := true; f_nowrite := []; f_ragged := false; f_eager_write_fails := false; f_default_hdr := []; f_sid := sid_fields [0%nat; 3%nat] |}
-  | 2 => {| f_kinds := [KStr; KStr; KStr]; f_layout := LFastq; f_concat := false; f_nowrite := [2%nat]; f_ragged := true; f_eager_write_fails := false; f_default_hdr := []; f_sid := sid_fields [] |}
-  | 3 => {| f_kinds := [KStr; KStr]; f_layout := LFasta2; f_concat := false; f_nowrite := []; f_ragged := true; f_eager_write_fails := false; f_default_hdr := []; f_sid := sid_fields [] |}
+            f_eager_write_fails := false; f_write_needs_context := true; f_default_hdr := []; f_sid := [] |}
+  | 0 => {| f_kinds := [KStr; KInt 0; KInt 0]; f_layout := LDelim; f_concat := true; f_nowrite := []; f_ragged := false; f_eager_write_fails := false; f_write_needs_context := false; f_default_hdr := []; f_sid := sid_fields [0%nat] |}
+  | 1 => {| f_kinds := [KStr; KInt 0; KInt 0; KStr; KInt 0; KStr]; f_layout := LDelim; f_concat := true; f_nowrite := []; f_ragged := false; f_eager_write_fails := false; f_write_needs_context := false; f_default_hdr := []; f_sid := sid_fields [0%nat; 3%nat] |}
+  | 2 => {| f_kinds := [KStr; KStr; KStr]; f_layout := LFastq; f_concat := false; f_nowrite := [2%nat]; f_ragged := true; f_eager_write_fails := false; f_write_needs_context := false; f_default_hdr := []; f_sid := sid_fields [] |}
+  | 3 => {| f_kinds := [KStr; KStr]; f_layout := LFasta2; f_concat := false; f_nowrite := []; f_ragged := true; f_eager_write_fails := false; f_write_needs_context := false; f_default_hdr := []; f_sid := sid_fields [] |}
   | 4 => {| f_kinds := [KStr; KInt (-1); KStr; KStr; KStr; KStr; KStr; KStr]; f_layout := LDelim; f_concat := true;
-            f_nowrite := []; f_ragged := true; f_eager_write_fails := true; f_default_hdr := vcf_default_header; f_sid := sid_fields [0%nat] |}
+            f_nowrite := []; f_ragged := true; f_eager_write_fails := true; f_write_needs_context := false; f_default_hdr := vcf_default_header; f_sid := sid_fields [0%nat] |}
   | _ => {| f_kinds := [KStr; KInt 0; KStr; KInt 0; KInt 0; KStr; KStr; KInt 0; KInt 0; KStr; KStr; KStr];
-            f_layout := LSam; f_concat := true; f_nowrite := []; f_ragged := true; f_eager_write_fails := false; f_default_hdr := []; f_sid := sid_fields [0%nat; 2%nat] |}
+            f_layout := LSam; f_concat := true; f_nowrite := []; f_ragged := true; f_eager_write_fails := false; f_write_needs_context := false; f_default_hdr := []; f_sid := sid_fields [0%nat; 2%nat] |}
   end.
 (* formats with a ragged `str` column: row access t[i] goes through npstructures' RaggedView2._get_row, which
    raises under NumPy 2 — the model says what the code intends (the row); an error is tolerated there *)
@@ -97,7 +97,8 @@ Definition lazy_ok (c : case) : bool :=
 (* the eager run is the eager implementation model: the Spec's rows, header context lost on derived tables *)
 Definition eager_ok (c : case) : bool :=
   let F := fmt_of (k_fmt c) in
-  let t0 := (rows_of_file F (k_recs c), negb (k_chunked c)) in
+  (* an eagerly read BAM table never has the header context its writer needs (BamBuffer.get_data sets none) *)
+  let t0 := (rows_of_file F (k_recs c), negb (k_chunked c) && negb (k_fmt c =? 6)) in
   zip_all (tol c) (e_run F (k_header c) [t0; t0] (k_prog c)) (k_eager c).
 Definition model_ok (c : case) : bool := lazy_ok c && eager_ok c.
 
